@@ -17,7 +17,7 @@ static std::string dump(const Image& im) {
   return vf::fmt("%zux%zu a=%d ", im.get_width(), im.get_height(), im.get_has_alpha() ? 1 : 0) + vf::show(im.get_data(), im.get_data_size());
 }
 
-VF_SECTION(concurrent_pairs, 16, 16, 300) {
+static std::vector<pp::Call> make_calls() {
   std::vector<pp::Call> calls;
   auto add = [&](const char* name, const char* group, std::function<std::string()> f) { calls.push_back({name, group, pp::guarded(f)}); };
   add("fill_rect(1,0,2,2, opaque) on 3x3", "fill_rect", [] { Image d = coded(3, 3, false, 1); d.fill_rect(1, 0, 2, 2, 9, 8, 7, 0xFF); return dump(d); });
@@ -35,7 +35,19 @@ VF_SECTION(concurrent_pairs, 16, 16, 300) {
   add("save(PPM) -> load 3x2", "codec", [] { Image s = coded(3, 2, false, 18); std::string f = s.save(Image::Format::COLOR_PPM); FILE* m = fmemopen(f.data(), f.size(), "rb"); Image b(m); fclose(m); return dump(b) + " file " + vf::show(f); });
   add("save(BMP) -> load 3x2 rgba", "codec", [] { Image s = coded(3, 2, true, 19); std::string f = s.save(Image::Format::WINDOWS_BITMAP); FILE* m = fmemopen(f.data(), f.size(), "rb"); Image b(m); fclose(m); return dump(b) + " file " + vf::show(f); });
   add("save(PNG) -> load 2x2", "codec", [] { Image s = coded(2, 2, false, 20); std::string f = s.save(Image::Format::PNG); FILE* m = fmemopen(f.data(), f.size(), "rb"); Image b(m); fclose(m); return dump(b) + " file " + vf::show(f); });
+  return calls;
+}
+
+VF_SECTION(concurrent_pairs, 16, 16, 300) {
+  std::vector<pp::Call> calls = make_calls();
   pp::run_pairs(r, calls, r.thorough() ? 600 : 250, r.thorough() ? 250 : 0);
   r.bound = "every unordered pair (and every call with itself) of 15 canvas operations / codec round trips on separate Image objects run concurrently: every schedule with <= 2 preemptions for same-operation pairs with <= 250 (thorough 600) scheduling points per call (thorough: cross pairs <= 250 too), <= 1 preemption otherwise; basic-block granularity of Image.cc";
+}
+
+// First calls: every same-function pair (thorough: every pair) with each schedule in a freshly forked process.
+VF_SECTION(concurrent_cold, 16, 16, 600) {
+  std::vector<pp::Call> calls = make_calls();
+  pp::run_pairs_cold(r, calls, r.thorough());
+  r.bound = "first calls: every same-function pair of the calls above and every call with itself (thorough: every pair), each schedule in a freshly forked process that has never called the library: every schedule with <= 1 preemption at basic-block granularity";
 }
 VF_MAIN()
